@@ -33,10 +33,14 @@ def _space_ranges():
 
 
 def _methods(tree, cls, rel, P):
-    for node in tree.body:
-        if isinstance(node, ast.ClassDef) and node.name == cls:
-            return {n.name: n for n in node.body if isinstance(n, ast.FunctionDef)}
-    raise P.Untranslatable("%s: class %s not found" % (rel, cls))
+    node = P.find_class(tree, cls, rel)
+    out = {}
+    for n in node.body:
+        if isinstance(n, ast.FunctionDef):
+            if n.name in out or n.decorator_list:
+                raise P.Untranslatable("%s:%d: %s.%s is defined twice or decorated" % (rel, n.lineno, cls, n.name))
+            out[n.name] = n
+    return out
 
 
 def _isspace_calls(fn):
@@ -110,46 +114,109 @@ def _check_token_parser(api):
             raise P.Untranslatable("%s: TokenParser.%s calls %s, the model expects %s" % (rel, m, got, calls))
 
 
-def _check_option_tokens(api):
-    """option_tokens = list(itertools.takewhile(lambda arg: arg != "--", self.tokens)) in both raw-args kinds"""
+# The tokenizer model (lean/Clikit/Model/...) is written by hand against these methods; nothing is generated from them.
+# The checks above say WHAT moved when a familiar thing moves; this is the net under them: the text of every method
+# (docstrings and comments aside) is the text the model was validated against, else the part counts as unread and the
+# correspondence run carries the tie.  (sha256 of `ast.unparse` of the parameters and of each statement, first 16 hex
+# digits; the same under Python 3.11 and 3.12.  Re-pin only together with a re-validation of the model.)
+PINNED = {
+    "__init__": "56773e89a2693166", "parse": "8c0c476b8746b2b9", "_parse": "6a7909f8d44ef933",
+    "_is_valid": "47934d6d12688924", "_next": "d4c598bb3e9913f9", "_parse_token": "41c99abcc38cde39",
+    "_parse_quoted_string": "9625462f43120aa9", "_parse_escape_sequence": "c42de3d147a133ff",
+}
+
+
+def _check_pinned(api):
+    import hashlib
     P = api.P
+    tree, rel = api.parse("args/token_parser.py")
+    ms = _methods(tree, "TokenParser", rel, P)
+    if sorted(ms) != sorted(PINNED):
+        raise P.Untranslatable("%s: TokenParser has the methods %s, the tokenizer model was written against %s"
+                               % (rel, sorted(ms), sorted(PINNED)))
+    for name, fn in ms.items():
+        text = ast.unparse(fn.args) + "\n" + "\n".join(ast.unparse(st) for st in P.strip_doc(fn.body))
+        if hashlib.sha256(text.encode()).hexdigest()[:16] != PINNED[name]:
+            raise P.Untranslatable("%s:%d: TokenParser.%s is not the text the hand-written tokenizer model was validated "
+                                   "against" % (rel, fn.lineno, name))
+    P.check_bases(tree, "TokenParser", [], rel)
+
+
+def _check_option_tokens(api):
+    """option_tokens = list(itertools.takewhile(lambda arg: arg != "--", self.tokens)) in both raw-args kinds.
+
+    Strict: `self._option_tokens` is assigned exactly once in the class, by the LAST statement of `__init__`, with exactly
+    that expression over `self.tokens` / `self._tokens`; `self._tokens` is assigned exactly once (a statement of
+    `__init__`); neither list is rebound, sliced into or mutated through the attribute anywhere in the class; the
+    properties `tokens` / `option_tokens` return the stored lists and do nothing else."""
+    P = api.P
+    U = P.Untranslatable
     seps = set()
     for relpath, cls in (("args/string_args.py", "StringArgs"), ("args/argv_args.py", "ArgvArgs")):
         tree, rel = api.parse(relpath)
-        ms = _methods(tree, cls, rel, P)
-        if "__init__" not in ms or "option_tokens" not in ms or "tokens" not in ms:
-            raise P.Untranslatable("%s: %s lacks __init__/tokens/option_tokens" % (rel, cls))
-        found = False
-        for node in ast.walk(ms["__init__"]):
-            if not (isinstance(node, ast.Assign) and len(node.targets) == 1
-                    and isinstance(node.targets[0], ast.Attribute) and node.targets[0].attr == "_option_tokens"):
-                continue
-            v = node.value
-            ok = (isinstance(v, ast.Call) and isinstance(v.func, ast.Name) and v.func.id == "list" and len(v.args) == 1)
-            tw = v.args[0] if ok else None
-            ok = ok and (isinstance(tw, ast.Call) and isinstance(tw.func, ast.Attribute) and tw.func.attr == "takewhile"
-                         and len(tw.args) == 2 and isinstance(tw.args[0], ast.Lambda))
-            if ok:
-                lam = tw.args[0]
-                b = lam.body
-                ok = (isinstance(b, ast.Compare) and len(b.ops) == 1 and isinstance(b.ops[0], ast.NotEq)
-                      and isinstance(b.left, ast.Name) and b.left.id == lam.args.args[0].arg
-                      and isinstance(b.comparators[0], ast.Constant) and isinstance(b.comparators[0].value, str))
-                src = tw.args[1]
-                ok = ok and isinstance(src, ast.Attribute) and src.attr in ("tokens", "_tokens")
-            if not ok:
-                raise P.Untranslatable("%s: %s._option_tokens is no longer list(itertools.takewhile(lambda a: a != <sep>, self.tokens))"
-                                       % (rel, cls))
-            seps.add(b.comparators[0].value)
-            found = True
-        if not found:
-            raise P.Untranslatable("%s: %s.__init__ does not assign _option_tokens" % (rel, cls))
-        # the property returns the stored list
-        ret = [n for n in ast.walk(ms["option_tokens"]) if isinstance(n, ast.Return)]
-        if not (len(ret) == 1 and isinstance(ret[0].value, ast.Attribute) and ret[0].value.attr == "_option_tokens"):
-            raise P.Untranslatable("%s: %s.option_tokens no longer returns self._option_tokens" % (rel, cls))
+        cnode = P.find_class(tree, cls, rel)
+        init = P.find_function(tree, cls, "__init__", rel, decorators=())
+        for prop, attr in (("tokens", "_tokens"), ("option_tokens", "_option_tokens")):
+            f = P.find_function(tree, cls, prop, rel, decorators=("property",))
+            body = P.strip_doc(f.body)
+            if not (len(f.decorator_list) == 1 and len(body) == 1 and isinstance(body[0], ast.Return)
+                    and body[0].value is not None and ast.unparse(body[0].value) == "self." + attr
+                    and [x.arg for x in f.args.args] == ["self"]):
+                raise U("%s:%d: %s.%s is no longer a property that returns self.%s" % (rel, f.lineno, cls, prop, attr))
+        body = P.strip_doc(init.body)
+        last = body[-1] if body else None
+        if not (isinstance(last, ast.Assign) and len(last.targets) == 1
+                and ast.unparse(last.targets[0]) == "self._option_tokens"):
+            raise U("%s:%d: %s.__init__ does not end with `self._option_tokens = ...`" % (rel, init.lineno, cls))
+        # the two lists: one assignment each, no other way of changing them through the attribute
+        stores = {"_tokens": [], "_option_tokens": []}
+        for n in ast.walk(cnode):
+            if isinstance(n, ast.Attribute) and n.attr in stores and isinstance(n.ctx, (ast.Store, ast.Del)):
+                stores[n.attr].append(n)
+            if isinstance(n, ast.Attribute) and isinstance(n.value, ast.Attribute) and n.value.attr in stores \
+                    and n.attr not in ("__contains__", "__len__", "__iter__", "index", "count", "copy"):
+                raise U("%s:%d: %s: self.%s.%s: the token lists are changed after they were built"
+                        % (rel, n.lineno, cls, n.value.attr, n.attr))
+            if isinstance(n, ast.Subscript) and isinstance(n.value, ast.Attribute) and n.value.attr in stores \
+                    and isinstance(n.ctx, (ast.Store, ast.Del)):
+                raise U("%s:%d: %s: an element of self.%s is assigned" % (rel, n.lineno, cls, n.value.attr))
+            if isinstance(n, ast.Constant) and n.value in stores:
+                raise U("%s:%d: %s: the attribute name %r appears as a string" % (rel, n.lineno, cls, n.value))
+        if len(stores["_option_tokens"]) != 1 or stores["_option_tokens"][0] is not last.targets[0]:
+            raise U("%s: %s._option_tokens is assigned more than once" % (rel, cls))
+        tok = [st for st in body if isinstance(st, ast.Assign) and len(st.targets) == 1
+               and ast.unparse(st.targets[0]) == "self._tokens"]
+        if len(stores["_tokens"]) != 1 or len(tok) != 1 or stores["_tokens"][0] is not tok[0].targets[0]:
+            raise U("%s: %s._tokens is not assigned exactly once, by a statement of __init__" % (rel, cls))
+        v = last.value
+        ok = (isinstance(v, ast.Call) and isinstance(v.func, ast.Name) and v.func.id == "list" and len(v.args) == 1
+              and not v.keywords)
+        tw = v.args[0] if ok else None
+        ok = ok and isinstance(tw, ast.Call) and len(tw.args) == 2 and not tw.keywords and isinstance(tw.args[0], ast.Lambda)
+        if ok and ast.unparse(tw.func) == "itertools.takewhile":
+            ok = any(isinstance(st, ast.Import) and any(al.name == "itertools" and al.asname is None for al in st.names)
+                     for st in tree.body) and not P._other_bindings(
+                         [st for st in tree.body if not isinstance(st, ast.Import)], "itertools", None)
+        elif ok and ast.unparse(tw.func) == "takewhile":
+            P.imported_as(tree, "takewhile", ("itertools",), rel)
+        else:
+            ok = False
+        if ok:
+            lam = tw.args[0]
+            b = lam.body
+            la = lam.args
+            ok = (len(la.args) == 1 and not la.defaults and not la.vararg and not la.kwarg and not la.kwonlyargs
+                  and not la.posonlyargs
+                  and isinstance(b, ast.Compare) and len(b.ops) == 1 and isinstance(b.ops[0], ast.NotEq)
+                  and isinstance(b.left, ast.Name) and b.left.id == la.args[0].arg
+                  and isinstance(b.comparators[0], ast.Constant) and isinstance(b.comparators[0].value, str))
+            ok = ok and ast.unparse(tw.args[1]) in ("self.tokens", "self._tokens")
+        if not ok:
+            raise U("%s:%d: %s._option_tokens is no longer list(itertools.takewhile(lambda a: a != <sep>, self.tokens))"
+                    % (rel, last.lineno, cls))
+        seps.add(b.comparators[0].value)
     if len(seps) != 1:
-        raise P.Untranslatable("StringArgs and ArgvArgs cut option tokens at different separators: %s" % sorted(seps))
+        raise U("StringArgs and ArgvArgs cut option tokens at different separators: %s" % sorted(seps))
     return seps.pop()
 
 
@@ -165,6 +232,7 @@ def _lean_char(ch):
 
 def generate(api):
     _check_token_parser(api)
+    _check_pinned(api)
     sep = _check_option_tokens(api)
     ranges = _space_ranges()
     n = sum(hi - lo + 1 for lo, hi in ranges)
